@@ -1,4 +1,5 @@
-import NmlVerif.Props.C12Getters
+import NmlVerif.Proofs.GeomGetters
+import NmlVerif.Proofs.GeomCell
 import NmlVerif.Props.C13Hist
 /-!
 # C13 — the segment lengths of the metrics theorems are the lengths of the ACTUAL point coordinates (tie to C12)
@@ -87,6 +88,32 @@ theorem exactLength_spec {m : Morph} {i : Nat} {l : Rat} (h : exactLength m i = 
       · next hc => cases h; exact ⟨s, p, rfl, rfl, hc.1, hc.2⟩
       · cases h
 
+/-- the translated `Cell.get_segment_length` (whatever surface shape the source has: the lemmas of
+    `Proofs/GeomGetters.lean` evaluate it) for a segment whose actual proximal point is `q`: the segment-level length of
+    `(q, distal)`. Proved here from C12's evaluation lemmas only, so that C13 does not depend on C12's property module. -/
+theorem segmentLength_of_inherits (c : Geom.Cell ℝ) (id : Nat) (seg : Geom.Seg ℝ) (q : Geom.Pt ℝ)
+    (hs : getSegment c id = .ok seg) (h : Inherits c id q) :
+    ∃ n, ∀ fuel, n ≤ fuel → segmentLength c fuel id = .ok (dist3 q seg.distal) := by
+  obtain ⟨n, hn⟩ := actualProximal_of_inherits c id q h
+  refine ⟨n, fun fuel hf => ?_⟩
+  have hap := hn fuel hf
+  unfold segmentLength
+  cases hp : seg.proximal with
+  | some p =>
+    have hq : q = p := by
+      cases h with
+      | own h1 h2 => rw [hs] at h1; cases h1; rw [hp] at h2; cases h2; rfl
+      | atEnd h1 h2 => rw [hs] at h1; cases h1; rw [hp] at h2; cases h2
+      | along h1 h2 => rw [hs] at h1; cases h1; rw [hp] at h2; cases h2
+    subst hq
+    have hseg : seg = mkSeg q seg.distal seg.parent := by
+      obtain ⟨a, b, c'⟩ := seg; simp only [mkSeg] at *; rw [hp]
+    rw [get_segment_length_own _ _ id seg q hs hp]
+    conv_lhs => rw [hseg]
+    rw [length_eval]
+  | none =>
+    rw [get_segment_length_inh _ _ id seg q hs hp hap, length_eval]
+
 /-- **the length parameter of the metrics theorems is the Euclidean length of the actual coordinates**: on every
     well-formed forest whose parentless segments carry a proximal point, whenever the exact rational length `ℓ` of
     segment `i` exists, C12's translated `Cell.get_segment_length` — run over ℝ on the same cell, for every
@@ -99,9 +126,9 @@ theorem c13_geom_length {m : Morph} (h : IsForest m) (hprox : ∀ s ∈ m, s.par
   rw [hp] at hp'; cases hp'
   have hin := c13_geom_inherits hS
   have hgs : getSegment (toCellR m) i = .ok (segR s) := by rw [getSegment_toCellR, hs]
-  obtain ⟨n, hn⟩ := C12.cell_getters (toCellR m) i (segR s) (ptR p) hgs hin
+  obtain ⟨n, hn⟩ := segmentLength_of_inherits (toCellR m) i (segR s) (ptR p) hgs hin
   refine ⟨n, fun fuel hf => ?_⟩
-  rw [(hn fuel hf).1, length_eval, dist3_comm]
+  rw [hn fuel hf, dist3_comm]
   show Except.ok (dist3 (ptR s.dist) (ptR p)) = _
   rw [dist3_of_sq s.dist p l h0 hsq]
 
